@@ -624,3 +624,35 @@ def r42(ctx: Ctx) -> RuleReport:
     rep.add('penman.__main__:process: separator precedes the graph text', fi.loc(s), 'violation' if order else 'ok',
             'separator can follow the graph within one iteration' if order else '')
     return rep
+
+
+@rule('R72', 'a model file given with --model is handed to Model(...) whole')
+def r72(ctx: Ctx) -> RuleReport:
+    rep = RuleReport('R72', r72.title, floor=1)
+    fi = ctx.repo.func('penman.__main__', '_get_model')
+    init = ctx.repo.cls('penman.model', 'Model').find_method('__init__')
+    params = [p for p in init.positional[1:]]
+    calls = [c for c, ts in ctx.cg.calls_in(fi) if any(t.kind == 'class' and t.cls.name == 'Model' for t in ts)]
+    seen = False
+    for c in calls:
+        fx = facts_ex(ctx, fi, c)
+        if not any(f == fi.positional[2] and pol for f, pol in fx) and not any('json.load' in norm(x) for x in ast.walk(c)):
+            star = [k for k in c.keywords if k.arg is None]
+            if not star and not c.keywords and not c.args:
+                continue            # Model() : the default model
+        star = [k for k in c.keywords if k.arg is None]
+        key = f'penman.__main__:_get_model: {norm(c)[:60]}'
+        if star:
+            seen = True
+            src = norm(expand(ctx, fi, star[0].value, c))
+            rep.add(key, fi.loc(c), 'ok' if 'json.load' in src else 'undecided', src[:60])
+        elif c.keywords:
+            seen = True
+            given = {k.arg for k in c.keywords}
+            missing = [p for p in params if p not in given]
+            rep.add(key, fi.loc(c), 'violation' if missing else 'ok',
+                    f'only {sorted(given)} are taken from the model file; {missing} given in the file are silently ignored, so the tool runs with another '
+                    f'model than the library does for the same file' if missing else '')
+    if not seen:
+        rep.undecided('penman.__main__:_get_model: the model file is loaded into Model(**...)', fi.loc())
+    return rep
